@@ -62,6 +62,27 @@ pub fn run(ctx: &Ctx) -> bool {
     true
 }
 
+/// in-process re-execution of a libFuzzer artifact (replay of a campaign's crash): the target's own entry function
+pub fn replay_artifact(target: &str, data: &[u8]) -> Result<(), Fail> {
+    let r = crate::engine::catch(|| match target {
+        "frames" => Ok(c01::fuzz_frame(data)),
+        "streams" => Ok(c01::fuzz_stream(data)),
+        "db_text" => {
+            if let Ok(s) = std::str::from_utf8(data) {
+                c01::fuzz_text(s)
+            }
+            Ok(())
+        }
+        "tls_segments" => Ok(c08::fuzz_segments(data)),
+        "akamai_chunks" => Ok(c17::fuzz_chunks(data)),
+        _ => Err(Fail::new("bad-replay", format!("unknown fuzz target {target}"))),
+    });
+    match r {
+        Ok(x) => x,
+        Err(p) => Err(Fail::new(crate::engine::panic_key(&p), p)),
+    }
+}
+
 fn replay_one(ctx: &Ctx, sub: &str, input: &serde_json::Value) -> Option<Result<(), Fail>> {
     let _ = sub;
     Some(match ctx.id.as_str() {
@@ -107,7 +128,19 @@ pub fn replay(ctx: &Ctx, path: &str) -> i32 {
         }
     };
     let sub = v["sub"].as_str().unwrap_or("").to_string();
-    match replay_one(ctx, &sub, &v["input"]) {
+    let result = if sub.starts_with("libfuzzer:") {
+        let art = v["input"]["artifact"].as_str().unwrap_or("");
+        match std::fs::read(art) {
+            Ok(data) => Some(replay_artifact(v["input"]["target"].as_str().unwrap_or(""), &data)),
+            Err(e) => {
+                eprintln!("cannot read artifact {art}: {e}");
+                return 2;
+            }
+        }
+    } else {
+        replay_one(ctx, &sub, &v["input"])
+    };
+    match result {
         None => {
             eprintln!("property {} has no replay support", ctx.id);
             2
